@@ -156,7 +156,7 @@ static int replay_hist(const struct hist *h)
  * memory, the arena list is at most NSLOT pointers */
 struct snap {
 	struct buddy_state pool[NSLOT];
-	struct buddy_state *items[NSLOT];
+	struct buddy_state *items[NSLOT], *by_age[NSLOT];
 	unsigned count;
 	uint_fast32_t full;
 	int slot_used[NSLOT], created, next_id;
@@ -169,6 +169,12 @@ static void snap_take(struct snap *s)
 	memcpy(s->pool, as_pool, sizeof as_pool);
 	s->count = array_count(as_lp.mm_state.buddies);
 	memcpy(s->items, array_items(as_lp.mm_state.buddies), s->count * sizeof(void *));
+#ifdef VERIF_HAVE_BY_AGE
+	if(array_count(as_lp.mm_state.buddies_by_age) != s->count)
+		sx_violation("the two arena lists of an LP differ in length", "%u by address, %u by age; ops: %s", s->count,
+		    (unsigned)array_count(as_lp.mm_state.buddies_by_age), as_trace);
+	memcpy(s->by_age, array_items(as_lp.mm_state.buddies_by_age), s->count * sizeof(void *));
+#endif
 	s->full = as_lp.mm_state.full_ckpt_size;
 	memcpy(s->slot_used, as_slot_used, sizeof as_slot_used);
 	s->created = as_created;
@@ -184,6 +190,12 @@ static void snap_restore(const struct snap *s)
 		array_reserve(as_lp.mm_state.buddies, NSLOT + 2);
 	array_count(as_lp.mm_state.buddies) = s->count;
 	memcpy(array_items(as_lp.mm_state.buddies), s->items, s->count * sizeof(void *));
+#ifdef VERIF_HAVE_BY_AGE
+	if(array_capacity(as_lp.mm_state.buddies_by_age) < NSLOT + 2)
+		array_reserve(as_lp.mm_state.buddies_by_age, NSLOT + 2);
+	array_count(as_lp.mm_state.buddies_by_age) = s->count;
+	memcpy(array_items(as_lp.mm_state.buddies_by_age), s->by_age, s->count * sizeof(void *));
+#endif
 	as_lp.mm_state.full_ckpt_size = s->full;
 	memcpy(as_slot_used, s->slot_used, sizeof as_slot_used);
 	as_created = s->created;
